@@ -207,9 +207,9 @@ class Gen:
                 fields.append(('scalar', fn, r.choice(NAMES)))
             elif k < 0.68:
                 base = r.choice(['int', 'uint', 'uint', 'bool'])
-                if 'mixed-unit-bitfields' in self.avoid and fields and fields[-1][0] in ('bf', 'bf0') \
-                        and (fields[-1][2] == 'bool') != (base == 'bool'):
-                    base = fields[-1][2]     # keep adjacent bit-fields in storage units of one size
+                prev = [f for f in fields if f[0] in ('bf', 'bf0')]
+                if 'mixed-unit-bitfields' in self.avoid and prev and (prev[0][2] == 'bool') != (base == 'bool'):
+                    base = prev[0][2]     # all bit-fields of one struct in storage units of one size
                 w = 1 if base == 'bool' else r.choice([1, 2, 3, 5, 7, 8, 9, 13, 16, 17, 24, 31, 32])
                 fields.append(('bf', fn, base, w))
                 if r.random() < 0.12:
